@@ -462,5 +462,62 @@ def selftest_corrupt():
 
 
 SELFTEST_NOTES = """
-(filled in below by the builder)
+Binding demonstration (2026-10-04).  Each mutation was applied to a scratch git worktree of /repo
+(`git -C /repo worktree add --detach /tmp/wt-c10-Mx`, removed afterwards) and the quick tier was run with
+VERIF_SRC=<worktree>/aldor/aldor/src C10_STAGES=replay,random (the model runs do not depend on the C code).
+All compile.  "caught" = exit 1 with VIOLATION lines; the reason is what TLC's TraceStore printed.
+
+ M1  store.c stoInit: fixedSizeFor[]/fixedSizeIndexFor[] not set for j == class size (off by one)
+        caught  replay: Fault (allocator died / audit assertion)
+ M2  stoResize: memcpy(np, p, MIN(nbytes, osz) - 1)
+        caught  replay: "Resize: common prefix not preserved"
+ M3  stoGcMarkRange: hi0 one word too low (last word of every scanned range skipped)
+        caught  replay: "Collect: reachable block reclaimed" (confirmed on the single script alone)
+ M4  mxmemMerge: N->nbytesPrev not updated
+        caught  replay: Fault (stoAudit assertion)
+ M5  pieceGetMixed: mixedFrontier not cleared when the frontier piece is consumed whole
+        caught  replay: Fault (stoAudit assertion)
+ M6  pagesGet: last page of a multi-page run left PgFree
+        caught  replay: Fault (stoAudit assertion)
+ M7  stoAlloc: nb = ROUND_UP(nbytes, MixedSizeQuantum) (header forgotten)
+        caught  replay: "Alloc: block smaller than requested" (n = 481, 737, ...)
+ M8  stoGcSweepMixed: marked pieces of more than 16 quanta swept
+        caught  replay: Fault (audit: mark bits left set)
+ M10 stoRecode: code written into the next quantum
+        caught  replay: Recode rejected (object code not recorded)
+ M11 stoGcMarkRange: pointers into follow quanta of a mixed piece ignored (no walk back to the piece head)
+        caught  replay: "Collect: reachable block reclaimed"
+ M15 stoGcMarkRange: pointers into PgBusyFollow pages ignored
+        caught  replay: "Collect: reachable block reclaimed"
+ With the allocator's own audit switched off (stoAudit() made empty) in the same worktree, to see what the
+ property-level observations catch by themselves:
+ M16 = M5 + no audit   first attempt: MISSED by replay (only the random histories died with a Fault): no size in the
+        alphabet made a fresh two-page frontier be consumed whole.  StoreImpl distinguishes that sub-case
+        (mixed:new-frontier-consume); the byte counts 7648/7649/7904/7905 were added to the alphabet.
+        now caught  replay: "Lost: a live block is no longer allocated although no collection ran"
+ M17 sweep of marked mixed pieces > 4 quanta + no audit
+        caught  replay: "Collect: reachable block reclaimed"
+ M18 = M6 + no audit   caught  replay: "Alloc: contents of a live block changed" (the run also showed that a hung
+        child blocked its shard until the 1500 s driver timeout: the driver now kills a script's child after 60 s
+        and writes a Hang event)
+ Machinery bugs found by these runs and repaired: build-cache eviction by concurrent builds removed the harness
+ binary mid-run (now copied to scratch); -coverage 1 on StoreImpl exhausted the JVM heap (replaced by
+ reachability probes); the "vacuous random histories" guard pre-empted the violation report when every history
+ died early (now only applied when all traces were accepted); TraceStore had no reason text for Recode.
+
+Corrupted events (selftest_corrupt() in this file; one field of one event of a recorded trace changed, TLC must
+refuse the trace exactly at that event; the untouched trace is accepted):
+ Alloc.size = n-1 -> "Alloc: block smaller than requested";  Alloc.off += 4 -> "Alloc: block not aligned";
+ Alloc at the address of the previous Alloc -> "Alloc: block overlaps a live block";
+ Resize.prefix_ok = false -> "Resize: common prefix not preserved";
+ Collect with its first survivor dropped -> "Collect: reachable block reclaimed";
+ bad = [[1,2]] -> "contents of a live block changed";  aud = false -> "stoAudit did not complete";
+ an inserted Fault event -> "Fault: the allocator died".
+
+Model-side sanity (scratch copies of the modules): StoreImpl.Merge without the update of the next piece's
+nbytesPrev -> AuditInv violated after 545 states; StoreImpl.SweepFixed that never keeps quantum 0 -> Refines
+violated (StoreAbs.Collect refuses the survivor set).  StoreAbsMC: -coverage 1 shows every action generated;
+StoreImpl: 25 sub-case labels each shown reachable by a ProbeInv violation.
+
+Unchanged tree: quick held with VERIF_SEED 20261004 and 7; no finding.
 """
